@@ -121,6 +121,8 @@ def conclude(prop, pack, pack_name, a, seed, t0, results, params_of, extra_cov=N
     obligations = {}         # oid -> status
     by_backend = {}
     solver_s = 0.0
+    max_query = (0.0, '')
+    max_prove = (0.0, '')
     queries = 0
     paths = 0
     crashes, undecided_units, vacuous = [], [], []
@@ -134,6 +136,8 @@ def conclude(prop, pack, pack_name, a, seed, t0, results, params_of, extra_cov=N
         paths += r['paths']
         queries += r['queries']
         solver_s += r['solver_s']
+        max_query = max(max_query, (r.get('max_query_s', 0.0), r['uid']))
+        max_prove = max(max_prove, (r.get('max_prove_s', 0.0), r['uid']))
         for k, v in r['interpreted'].items():
             interpreted[k] = interpreted.get(k, 0) + v
         for k, v in r['stubbed'].items():
@@ -212,7 +216,7 @@ def conclude(prop, pack, pack_name, a, seed, t0, results, params_of, extra_cov=N
 
     # ---- report -------------------------------------------------------------------------------
     print(f"[{prop}] tier={a.tier} units={len(results)} paths={paths} obligations={n_proof} discharged={n_disch} "
-          f"bounded-obligations={bounded['obligations']} solver-queries={queries} solver_s={solver_s:.1f} wall={wall:.1f}s")
+          f"bounded-obligations={bounded['obligations']} solver-queries={queries} solver_s={solver_s:.1f} slowest-query={max_query[0]:.1f}s slowest-proof-query={max_prove[0]:.1f}s wall={wall:.1f}s")
     seen = {}
     for kf, oid in known_hits:
         seen.setdefault(kf['id'], [kf, 0])[1] += 1
@@ -263,7 +267,7 @@ def conclude(prop, pack, pack_name, a, seed, t0, results, params_of, extra_cov=N
                 'trusted_base': TRUSTED_BASE + list(getattr(pack, 'TRUSTED', [])),
                 'samples': samples,
                 'units': len(results), 'paths_explored': paths, 'solver_queries': queries,
-                'solver_s': round(solver_s, 2), 'by_backend': by_backend,
+                'solver_s': round(solver_s, 2), 'slowest_query_s': round(max_query[0], 2), 'slowest_query_unit': max_query[1], 'slowest_proof_query_s': round(max_prove[0], 2), 'slowest_proof_query_unit': max_prove[1], 'by_backend': by_backend,
                 'functions_under_contract': sorted(getattr(pack, 'FUNCTIONS', [])),
                 'functions_interpreted_from_working_tree': {k: v for k, v in sorted(interpreted.items())},
                 'functions_replaced_by_contract_stub': stubbed,
